@@ -1,5 +1,6 @@
 import Hm.C11Full
 import Hm.C12
+import Hm.RustTrim
 
 /-! C11 for chunked responses: the de-chunked message is a well-formed value whose regenerated form is the
     Content-Length-framed equivalent carrying the de-chunked body -/
@@ -158,8 +159,16 @@ theorem joinWith_good : ∀ (ts : List Bytes), ts ≠ [] → (∀ t ∈ ts, Good
 
 /-! ### where tokens come from -/
 
+theorem validByte_ascii : ∀ b : UInt8, (isWsp b || isGraphic b) = true → b < 128 := by
+  intro b hb
+  have : ∀ n, n < 256 → (isWsp n.toUInt8 || isGraphic n.toUInt8) = true → n.toUInt8 < 128 := by decide +kernel
+  have h := this b.toNat b.toNat_lt
+  have e : b.toNat.toUInt8 = b := by simp
+  rw [e] at h
+  exact h hb
+
 theorem mem_headerTokens {hs : List Header} {name t : Bytes} (ht : t ∈ headerTokens hs name) :
-    ∃ h ∈ hs, ∃ p ∈ splitTerminator COMMA h.value, t = lower (trimBy isAsciiWs p) := by
+    ∃ h ∈ hs, ∃ p ∈ splitTerminator COMMA h.value, t = lower (rustTrim p) := by
   unfold headerTokens headerMultiValue at ht
   simp only [List.mem_flatMap, List.mem_map, List.mem_filter] at ht
   obtain ⟨v, ⟨h, ⟨hh, _⟩, rfl⟩, p, hp, rfl⟩ := ht
@@ -168,7 +177,16 @@ theorem mem_headerTokens {hs : List Header} {name t : Bytes} (ht : t ∈ headerT
 theorem goodTok_of_tokens {hs : List Header} (hw : ∀ h ∈ hs, WfHeader h) {name t : Bytes}
     (ht : t ∈ headerTokens hs name) (hne : t ≠ []) : GoodTok t := by
   obtain ⟨h, hh, p, hp, rfl⟩ := mem_headerTokens ht
-  exact goodTok_of_piece (hw h hh).value_ok (mem_splitTerminator_sub COMMA _ p hp) hne
+  -- a piece of a valid (hence ASCII) header value: `str::trim` is the ASCII trim on it
+  have hsub := mem_splitTerminator_sub COMMA _ p hp
+  have hascii : ∀ b ∈ p, b < 128 := by
+    intro b hb
+    have hv := (hw h hh).value_ok
+    unfold validValue at hv
+    rw [List.all_eq_true] at hv
+    exact validByte_ascii b (hv b (hsub b hb))
+  rw [rustTrim_ascii p hascii] at hne ⊢
+  exact goodTok_of_piece (hw h hh).value_ok hsub hne
 
 /-! ### the rewritten header list is well-formed -/
 
